@@ -167,3 +167,22 @@ def sp_lay_rounding(sid, price=2.0, size=10.0, sp=400.0, limit=10.0):
     script = {"1.100000001|0|book": [{"op": "place", "o": "o1", "sel": 11, "side": "LAY", "price": price, "size": size, "pers": "MARKET_ON_CLOSE"}]}
     return {"id": sid, "cfg": {}, "markets": [{"id": "1.100000001", "event_id": "30000001", "market_type": "WIN", "winners": 1, "bsp": True, "persistence": True, "runners": [11, 12], "updates": ups}],
             "strategies": [{"name": "A", "max_order_exposure": limit, "max_selection_exposure": limit, "max_live_trade_count": 1, "script": script}]}
+
+
+def family_replace_package(tier, seed):
+    """replace / cancel / update packages of several orders of which some complete during the latency"""
+    import json, os
+    out = []
+    here = os.path.dirname(os.path.dirname(os.path.abspath(__file__)))
+    with open(os.path.join(here, "findings", "D10_replace_package_with_completed_order_misaligned.scn.json")) as f:
+        base = json.load(f)
+    for i, op in enumerate(["replace", "cancel", "update"]):
+        scn = json.loads(json.dumps(base))
+        scn["id"] = "x_pkg_%s" % op
+        acts = scn["strategies"][0]["script"]["1.100000001|2000|book"][0]["actions"]
+        for a in acts:
+            a["op"] = op
+            if op == "update":
+                a["pers"] = "PERSIST"
+        out.append(scn)
+    return out
